@@ -241,6 +241,34 @@ theorem C11_types_closure (d : Dict) (rank : Nat → Nat) (h : Ranked d rank) (k
   unfold typesOf
   rw [mem_dedupBy, List.mem_cons, supStar_iff d rank h.sups h.2]
 
+/-- **`subtypesIterator` and the candidate test**: the entity list `edL` that `lazyRefs::checkAnInvAttr` builds from the inverted entity
+    with `subtypesIterator` (modelled as such: `subWalk`, the FIFO walk over the registry's subtype lists) contains a keyword's entity
+    exactly when the inverted entity is in the supertype closure of that keyword — which is how the resolver model tests candidates.
+    For every acyclic dictionary with unique entity names. -/
+theorem C11_candidate_entities (d : Dict) (rank : Nat → Nat) (h : Ranked d rank) (hn : NamesUnique d) (over k : Nat) :
+    k ∈ candEntities d over ↔ over ∈ typesOf d k := by
+  rw [C11_types_closure d rank h, ← starSub_iff_supStar d hn]
+  have hr' : ∀ n s, s ∈ subsOf d n → (fun m => d.length - rank m) s < (fun m => d.length - rank m) n := by
+    intro n s hs
+    have h1 := h.sups s n ((mem_subsOf d hn n s).mp hs)
+    have h2 := h.2 s
+    simp only; omega
+  unfold candEntities subWalk
+  constructor
+  · intro hk
+    rcases List.mem_cons.mp hk with h1 | h1
+    · rw [h1]; exact StarG.refl
+    · obtain ⟨y, hy, hs⟩ := levelsG_sound (subsOf d) _ _ k h1
+      exact StarG.head hy hs
+  · intro hs
+    cases hs with
+    | refl => simp
+    | head h1 h2 =>
+      rename_i s
+      refine List.mem_cons_of_mem _ ?_
+      exact levelsG_complete (subsOf d) (fun m => d.length - rank m) hr' _ _
+        (fun y _ => by omega) s h1 k h2
+
 /-- `InitIAttrs` links `INVERSE … FOR a` over `E` to an explicit attribute `a` declared by `E` or by one of its supertypes (at any
     depth), and finds one whenever there is one -/
 theorem C11_attr_owner (d : Dict) (rank : Nat → Nat) (h : Ranked d rank) (over a : Nat) :
@@ -413,7 +441,7 @@ theorem C11_redeclared_witness :
 /-- non-vacuity: the demo dictionary (grand-supertype, diamond, redeclaration) is ranked, its instances have unique descriptors -/
 def demoRank (n : Nat) : Nat := if n = 0 ∨ n = 3 then 0 else if n = 2 ∨ n = 7 then 2 else if n ≤ 6 then 1 else 0
 
-example : Ranked demoDict demoRank ∧ AttrNamesUnique demoDict :=
-  ⟨⟨by decide, fun n => by unfold demoRank; split <;> (try split) <;> (try split) <;> simp [demoDict]⟩, by unfold AttrNamesUnique; decide⟩
+example : Ranked demoDict demoRank ∧ AttrNamesUnique demoDict ∧ NamesUnique demoDict ∧ candEntities demoDict 0 = [0, 1, 5, 6, 2, 7, 7] :=
+  ⟨⟨by decide, fun n => by unfold demoRank; split <;> (try split) <;> (try split) <;> simp [demoDict]⟩, by unfold AttrNamesUnique; decide, by unfold NamesUnique; decide, by decide⟩
 
 end StepModel.LazyRefs
